@@ -378,6 +378,14 @@ pub(crate) mod public {
         /// Tests: count non-zero buckets.
         #[cfg(test)]
         fn count_nonzero_buckets(&self) -> usize;
+
+        /// Verification hook: read back the complete generator state.
+        #[cfg(fast_tlsh_verif)]
+        fn verif_to_parts(&self) -> crate::verif::GeneratorParts;
+
+        /// Verification hook: construct a generator from an explicit state.
+        #[cfg(fast_tlsh_verif)]
+        fn verif_from_parts(parts: &crate::verif::GeneratorParts) -> Self;
     }
 }
 
@@ -708,6 +716,37 @@ pub(crate) mod inner {
             let buckets: [u32; SIZE_BUCKETS] = self.buckets.data().try_into().unwrap();
             buckets.iter().filter(|&&x| x != 0).count()
         }
+
+        #[cfg(fast_tlsh_verif)]
+        fn verif_to_parts(&self) -> crate::verif::GeneratorParts {
+            let mut buckets = [0u32; 256];
+            buckets[..self.buckets.buckets.len()].copy_from_slice(&self.buckets.buckets);
+            let mut checksum = [0u8; 3];
+            checksum[..SIZE_CKSUM].copy_from_slice(self.checksum.data());
+            crate::verif::GeneratorParts {
+                buckets,
+                len: self.len,
+                checksum,
+                tail: self.tail,
+                tail_len: self.tail_len,
+            }
+        }
+
+        #[cfg(fast_tlsh_verif)]
+        fn verif_from_parts(parts: &crate::verif::GeneratorParts) -> Self {
+            let mut value = Self::default();
+            let count = value.buckets.buckets.len();
+            value
+                .buckets
+                .buckets
+                .copy_from_slice(&parts.buckets[..count]);
+            value.len = parts.len;
+            let checksum: [u8; SIZE_CKSUM] = parts.checksum[..SIZE_CKSUM].try_into().unwrap();
+            value.checksum = FuzzyHashChecksumData::from_raw(&checksum);
+            value.tail = parts.tail;
+            value.tail_len = parts.tail_len;
+            value
+        }
     }
 }
 
@@ -770,6 +809,18 @@ impl<T: ConstrainedFuzzyHashType> GeneratorType for Generator<T> {
     #[cfg(test)]
     fn count_nonzero_buckets(&self) -> usize {
         self.inner.count_nonzero_buckets()
+    }
+
+    #[cfg(fast_tlsh_verif)]
+    fn verif_to_parts(&self) -> crate::verif::GeneratorParts {
+        self.inner.verif_to_parts()
+    }
+
+    #[cfg(fast_tlsh_verif)]
+    fn verif_from_parts(parts: &crate::verif::GeneratorParts) -> Self {
+        Self {
+            inner: <inner_type!(T)>::verif_from_parts(parts),
+        }
     }
 }
 
